@@ -9,6 +9,7 @@
 -/
 import Fir.Model.Resizer
 import Fir.Proofs.StructLemmas
+import Fir.Proofs.IdealLemmas
 
 namespace Fir.C11
 open Fir
@@ -36,5 +37,40 @@ theorem nearest_dims (src prev : Img) (cl ct cw ch : Float) :
 theorem nearest_no_alpha (p p' : PixT) (src prev : Img) (crop : Cropping) (a a' : Bool) :
     resizeModel p src prev ⟨.nearest, crop, a⟩ = resizeModel p' src prev ⟨.nearest, crop, a'⟩ :=
   Fir.Proofs.nearest_no_alpha p p' src prev crop a a'
+
+/-! ### the ideal coordinate (exact rationals) - what the float-noise clause is measured against.
+    `Fir.Proofs.nearestIdeal l cw dw x = ⌊l + (x+½)·cw/dw⌋` is the coordinate the correspondence oracle
+    (`checkNearest`) evaluates for every generated case. -/
+
+/-- the selected source pixel is the one whose extent [i, i+1) contains the destination centre -/
+theorem ideal_pixel_under_centre (l cw : ℚ) (dw x : Nat) :
+    (Fir.Proofs.nearestIdeal l cw dw x : ℚ) ≤ l + ((x : ℚ) + 1 / 2) * cw / dw ∧
+    l + ((x : ℚ) + 1 / 2) * cw / dw < Fir.Proofs.nearestIdeal l cw dw x + 1 :=
+  Fir.Proofs.nearestIdeal_centre l cw dw x
+
+/-- for every crop box inside the source the ideal coordinate is a valid source index: no clamping is
+    needed in exact arithmetic (the clamp of the code only absorbs float noise) -/
+theorem ideal_in_bounds (l cw : ℚ) (sw dw x : Nat) (hl : 0 ≤ l) (hcw : 0 < cw) (hfit : l + cw ≤ sw)
+    (hd : 0 < dw) (hx : x < dw) :
+    0 ≤ Fir.Proofs.nearestIdeal l cw dw x ∧ Fir.Proofs.nearestIdeal l cw dw x < sw :=
+  Fir.Proofs.nearestIdeal_in_bounds l cw sw dw x hl hcw hfit hd hx
+
+/-- order of pixels is preserved -/
+theorem ideal_mono (l cw : ℚ) (dw x x' : Nat) (hcw : 0 ≤ cw) (h : x ≤ x') :
+    Fir.Proofs.nearestIdeal l cw dw x ≤ Fir.Proofs.nearestIdeal l cw dw x' :=
+  Fir.Proofs.nearestIdeal_mono l cw dw x x' hcw h
+
+/-- integer up-scaling repeats every source pixel exactly `k` times -/
+theorem ideal_integer_upscale (sw k x : Nat) (hk : 0 < k) (hs : 0 < sw) (hx : x < sw * k) :
+    Fir.Proofs.nearestIdeal 0 sw (sw * k) x = (x / k : Nat) :=
+  Fir.Proofs.nearestIdeal_integer_upscale sw k x hk hs hx
+
+/-- odd integer down-scaling picks the middle pixel of every block -/
+theorem ideal_odd_downscale (dw j x : Nat) (hd : 0 < dw) (hx : x < dw) :
+    Fir.Proofs.nearestIdeal 0 ((dw * (2 * j + 1) : Nat) : ℚ) dw x = (x * (2 * j + 1) + j : Nat) :=
+  Fir.Proofs.nearestIdeal_odd_downscale dw j x hd hx
+
+example : Fir.Proofs.nearestIdeal 0 4 8 5 = 2 := by
+  unfold Fir.Proofs.nearestIdeal; norm_num [Int.floor_eq_iff]
 
 end Fir.C11
